@@ -1524,6 +1524,10 @@ func (c *codegen) Visit(node ast.Node) ast.Visitor {
 		return nil
 
 	case *ast.BranchStmt:
+		if n.Tok == token.GOTO {
+			c.prog.Err = errors.New("goto statement is not supported")
+			return nil
+		}
 		var label string
 		if n.Label != nil {
 			label = n.Label.Name
